@@ -24,6 +24,7 @@ func init() {
 	vs.RegisterHarness("VerifC16DeactivateVault", VerifC16DeactivateVault)
 	vs.RegisterHarness("VerifC16StakingOps", VerifC16StakingOps)
 	vs.RegisterHarness("VerifC16LockIndex", VerifC16LockIndex)
+	vs.RegisterHarness("VerifC16IndexOrderConcrete", VerifC16IndexOrderConcrete)
 }
 
 // ---------------------------------------------------------------------------------------------------------------
@@ -732,6 +733,33 @@ func VerifC16LockIndex() {
 	// the bystander's locks never constrain the actor and vice versa
 	okB := e.k.isValidPower(e.ctx, c16Addr(c16B), sdkmath.NewIntFromBigInt(T))
 	vs.Assert("lockindex/bystander-is-valid-power", okB == c16Geq(T, after.maxActiveLock(c16B)))
+}
+
+// c16Boundary: powers around the byte and sign boundaries of the 8-byte big-endian index key.
+var c16Boundary = []uint64{0, 1, 255, 256, 1<<32 + 1, 1<<63 - 1, 1 << 63, 1<<64 - 1}
+
+// VerifC16IndexOrderConcrete: two locks with CONCRETE boundary powers written through the real SetLockedPower-free
+// path (SetLock), symbolic active flags, ANY candidate total power: the index order must be the numeric order.
+func VerifC16IndexOrderConcrete() {
+	e := c16Setup()
+	var has [3]bool
+	var pow [3]uint64
+	var active [3]bool
+	for v := 0; v < 2; v++ {
+		has[v] = true
+		pow[v] = c16Boundary[vs.Pick("boundary_power", len(c16Boundary))]
+		active[v] = vs.Bool("vault_active")
+		e.k.SetVault(e.ctx, types.NewVault(c16Vaults[v], active[v]))
+		e.k.SetLock(e.ctx, types.NewLock(c16Addr(c16A).String(), c16Vaults[v], c16U(pow[v])))
+	}
+	e.assertLocksAndIndex("order", c16A, has, pow, 2)
+	s := &c16State{nV: 2, vActive: active}
+	s.lockHas[c16A], s.lockPow[c16A] = has, pow
+	T := vs.BigU("candidate_total_power", 66)
+	ok := e.k.isValidPower(e.ctx, c16Addr(c16A), sdkmath.NewIntFromBigInt(T))
+	vs.Assert("order/is-valid-power-iff-covers-largest-active-lock", ok == c16Geq(T, s.maxActiveLock(c16A)))
+	vs.Reach("valid", ok)
+	vs.Reach("invalid", !ok)
 }
 
 func errorsIs(err, target error) bool { return stderrors.Is(err, target) }
